@@ -655,7 +655,8 @@ def make_cases(ctx, rng):
           break
       else:
         raise RuntimeError(f'generator never produced an element eligible for {f}')
-      e = el[int(rng.integers(0, len(el)))]
+      # "wherever in the model the feature occurs": first eligible element, last one, then random ones
+      e = el[0] if r == 0 else el[-1] if r == 1 else el[int(rng.integers(0, len(el)))]
       v = vs[r % len(vs)]
       cases.append((dict(base=b, feature=f, elem=e, variant=v), render(inject(doc, f, e, v))))
       b += 1
